@@ -26,6 +26,8 @@ pub struct Stringifier<'s, W: FmtWrite> {
     source_path: &'s str,
     scope_names: Vec<CompactString>,
     mangling: bool,
+    /// whether the text being written is directly followed by text that starts with `{`
+    brace_follows: bool,
 }
 
 impl<'s, W: FmtWrite> Stringifier<'s, W> {
@@ -41,6 +43,7 @@ impl<'s, W: FmtWrite> Stringifier<'s, W> {
             source_path,
             scope_names: vec![],
             mangling: false,
+            brace_follows: false,
         }
     }
 
